@@ -113,6 +113,12 @@ def main():
                 'detected_by_quick_check': res['check_exit'] == 1, 'check_exit': res['check_exit'], 'rules_fired': res['check_rules'],
                 'first_report': res['check_first'],
             }
+            first = {0: 'missed', 1: 'reported', 2: 'no verdict'}.get(res['check_exit'], '?')
+            try:
+                first = json.load(open(os.path.join(dst, 'meta.json'))).get('verdict_when_first_seen', first)
+            except (OSError, ValueError):
+                pass
+            meta['verdict_when_first_seen'] = first       # the independent measurement: never overwritten by later re-runs
             with open(os.path.join(dst, 'meta.json'), 'w') as fh:
                 json.dump(meta, fh, indent=1)
     for s in range(nslots):
